@@ -289,6 +289,7 @@ def compact(x, limit=600):
 
 def main(argv):
     import argparse
+    os.environ['VERIF_RUN_TAG'] = str(os.getpid())        # scratch directories of this run (several checks may run at the same time)
     ap = argparse.ArgumentParser()
     ap.add_argument('prop')
     ap.add_argument('--tier', default=os.environ.get('VERIF_TIER', 'quick'))
